@@ -147,6 +147,36 @@ static int cmp_tok(const String* a, const String* b)
   return r ? r : la < lb ? -1 : la > lb ? 1 : 0;
 }
 
+// a byte string as hex digits; above LONGVAL bytes as '#' + its 32-bit FNV-1a checksum (the driver prints the same)
+enum { LONGVAL = 1024 };
+static void put_val(const unsigned char* b, size_t n)
+{
+  if(n <= LONGVAL) { vh::puthex(b, n); return; }
+  unsigned int h = 2166136261u;
+  for(size_t i = 0; i < n; ++i) { h ^= b[i]; h *= 16777619u; }
+  printf("#%08x", h);
+}
+
+// the tokens of a HashSet in lexicographic order
+static void print_set(const HashSet<String>& hs, usize n)
+{
+  enum { MAXTOK = 4096 };
+  static const String* tok[MAXTOK];
+  usize k = 0;
+  for(HashSet<String>::Iterator i = hs.begin(), e = hs.end(); i != e && k < MAXTOK; ++i) tok[k++] = &*i;
+  for(usize i = 1; i < k; ++i) {              // insertion sort
+    const String* x = tok[i]; usize j = i;
+    for(; j > 0 && cmp_tok(x, tok[j - 1]) < 0; --j) tok[j] = tok[j - 1];
+    tok[j] = x;
+  }
+  printf("L%llu:", (unsigned long long)k);
+  for(usize i = 0; i < k; ++i) {
+    if(i) printf(",");
+    put_val((const unsigned char*)tok[i]->data->str, tok[i]->length());
+  }
+  if(n != hs.size() || k != hs.size()) printf(" !count");
+}
+
 static void begin(long, vh::Tok&)
 {
   tracking = false;
@@ -170,7 +200,7 @@ static void dump()
     const String& s = *vars[i];
     usize n = s.length();
     printf(" [ %llu ", (unsigned long long)n);
-    vh::puthex((const unsigned char*)s.data->str, n < 100000 ? n : 100000);
+    put_val((const unsigned char*)s.data->str, n);
     printf(" ]");
   }
   printf(" | I");
@@ -229,7 +259,7 @@ static void op(long c, long, vh::Tok& t)
   // argument sanity (the generators only produce valid indices; anything else is a harness error)
   bool ctor = IS("new") || IS("lit") || IS("buf") || IS("fill") || IS("cap") || IS("copy") || IS("drop") || IS("reg") || IS("fromprintf")
            || IS("frombool") || IS("fromcstr") || IS("fromcstrn") || IS("char");
-  bool pushes = IS("plus") || IS("pluslit") || IS("substr") || IS("tokc") || IS("toks");
+  bool pushes = IS("plus") || IS("pluslit") || IS("substr") || IS("substrd") || IS("tokc") || IS("toks");
   if(IS("stat") && (t.n < 5 || var(t.v[2]) < 0 || var(t.v[3]) < 0)) { printf("! harness: bad variable\n"); tracking = false; return; }
   if(!ctor && !IS("stat") && (t.n < 2 || var(t.v[1]) < 0)) { printf("! harness: bad variable\n"); tracking = false; return; }
   if(((ctor && !IS("drop") && !IS("reg") && !IS("char")) || pushes) && nv >= MAXV) { printf("! harness: too many variables\n"); tracking = false; return; }
@@ -268,7 +298,7 @@ static void op(long c, long, vh::Tok& t)
     String& s = V(1);
     const char* p = s;
     usize n = s.length();
-    vh::puthex((const unsigned char*)p, n);
+    put_val((const unsigned char*)p, n);
     printf(" t=%02x", (unsigned char)p[n]);
   }
   else if(IS("apps")) { V(1).append(V(2)); printf("-"); }
@@ -300,7 +330,7 @@ static void op(long c, long, vh::Tok& t)
     for(List<String>::Iterator i = l.begin(), e = l.end(); i != e; ++i) {
       if(!first) printf(",");
       first = false;
-      vh::puthex((const unsigned char*)i->data->str, i->length());
+      put_val((const unsigned char*)i->data->str, i->length());
     }
     if(n != l.size()) printf(" !count");
   }
@@ -333,6 +363,33 @@ static void op(long c, long, vh::Tok& t)
     s.append(p + N(2), N(3));
     printf("-");
   }
+  else if(IS("preo")) {              // prepend(const char*, len) with the source in the String's own text
+    String& s = V(1); const char* p = s;
+    s.prepend(p + N(2), N(3));
+    printf("-");
+  }
+  // calls that leave out a defaulted argument: trim(), substr(start), split(list, separators), split(set, separators)
+  else if(IS("trimd")) { V(1).trim(); printf("-"); }
+  else if(IS("substrd")) { String r = V(1).substr((ssize)atoll(A(2))); vars[nv++] = new String(r); printf("-"); }
+  else if(IS("splitd")) {
+    CArg a(A(2));
+    List<String> l;
+    usize n = V(1).split(l, a.c());
+    printf("L%llu:", (unsigned long long)n);
+    bool first = true;
+    for(List<String>::Iterator i = l.begin(), e = l.end(); i != e; ++i) {
+      if(!first) printf(",");
+      first = false;
+      put_val((const unsigned char*)i->data->str, i->length());
+    }
+    if(n != l.size()) printf(" !count");
+  }
+  else if(IS("splitsetd")) {
+    CArg a(A(2));
+    HashSet<String> hs;
+    usize n = V(1).split(hs, a.c());
+    print_set(hs, n);
+  }
   else if(IS("printfs")) {           // an argument of printf is the String's own C-string view
     String& s = V(1); CArg a(A(2)), b(A(3)); const char* p = s;
     int r = s.printf("%s%s%s", a.c(), p, b.c());
@@ -348,21 +405,7 @@ static void op(long c, long, vh::Tok& t)
     CArg a(A(2));
     HashSet<String> hs;
     usize n = V(1).split(hs, a.c(), atoi(A(3)) != 0);
-    enum { MAXTOK = 4096 };
-    static const String* tok[MAXTOK];
-    usize k = 0;
-    for(HashSet<String>::Iterator i = hs.begin(), e = hs.end(); i != e && k < MAXTOK; ++i) tok[k++] = &*i;
-    for(usize i = 1; i < k; ++i) {              // insertion sort
-      const String* x = tok[i]; usize j = i;
-      for(; j > 0 && cmp_tok(x, tok[j - 1]) < 0; --j) tok[j] = tok[j - 1];
-      tok[j] = x;
-    }
-    printf("L%llu:", (unsigned long long)k);
-    for(usize i = 0; i < k; ++i) {
-      if(i) printf(",");
-      vh::puthex((const unsigned char*)tok[i]->data->str, tok[i]->length());
-    }
-    if(n != hs.size() || k != hs.size()) printf(" !count");
+    print_set(hs, n);
   }
   else if(IS("fromprintf")) {
     CArg a(A(1));
